@@ -69,78 +69,7 @@ Ltac expose :=
   cbv beta iota zeta delta [bind mbind sbind nbind catch Encoder.lift_tab fst snd map_ctl map_lres
                             Decoder.h_name Decoder.h_value Decoder.h_class].
 
-(** * Equalities up to arithmetic *)
-Lemma len_nonneg_ {A} (l : list A) : 0 <= len l.
-Proof. unfold len. lia. Qed.
-
-(** [0 <= len l] for the lengths in sight (an emptiness test may be spelled [len l >? 0]) *)
-Ltac len_facts :=
-  repeat match goal with
-  | |- context [len ?l] =>
-      lazymatch goal with _ : 0 <= len l |- _ => fail | _ => pose proof (len_nonneg_ l) end
-  | _ : context [len ?l] |- _ =>
-      lazymatch goal with _ : 0 <= len l |- _ => fail | _ => pose proof (len_nonneg_ l) end
-  end.
-
-Ltac zleaf := len_facts; solve [ lia | btauto | (norm_cmp; lia) | apply Z.land_comm | apply Z.lor_comm | apply Z.lxor_comm ].
-
-(** [a = b] when a and b have the same shape down to integer / boolean sub-terms that are equal by
-    arithmetic: congruence first (so that an integer inside an uninterpreted term is found), [lia] or
-    [btauto] at the outermost position where the shapes differ. *)
-Ltac zcong :=
-  lazymatch goal with
-  | |- ?a = ?a => reflexivity
-  | |- @eq ?T _ _ =>
-      first [ solve [ progress f_equal; zcong ]
-            | lazymatch T with Z => zleaf | bool => zleaf | nat => zleaf end ]
-  end.
-
-Ltac same_head a b := let ha := head_of a in let hb := head_of b in constr_eq ha hb.
-Ltac differ a b := tryif constr_eq a b then fail else idtac.
-Ltac no_match x := lazymatch x with context [match _ with _ => _ end] => fail | _ => idtac end.
-
-(** x is about to be analysed: something equal to it up to arithmetic was analysed before *)
-Ltac sync_hyp x :=
-  match goal with
-  | H : ?y = _ |- _ =>
-      differ x y; same_head x y;
-      let E := fresh in assert (E : x = y) by zcong; rewrite E; clear E; rewrite H
-  end.
-(** ... or is another scrutinee of the goal, which is rewritten into x *)
-Ltac sync_goal x :=
-  repeat match goal with
-  | |- context [match ?y with _ => _ end] =>
-      differ x y; same_head x y; no_match y;
-      let E := fresh in assert (E : y = x) by zcong; rewrite E; clear E
-  end.
-
-(** destruct a scrutinee of the goal that contains no other match -- or, when its value is already
-    known from an earlier case analysis (the two sides do not always show a scrutinee at the same
-    moment), rewrite with what is known.  Scrutinees that differ only by the spelling of an integer
-    or boolean sub-term ([a + b] / [b + a]) are identified first. *)
-Ltac break_match :=
-  match goal with
-  | |- context [match ?x with _ => _ end] =>
-      no_match x;
-      first [ match goal with H : x = _ |- _ => rewrite H end
-            | sync_hyp x
-            | sync_goal x; destruct x eqn:? ]
-  end.
-
-Ltac units := repeat match goal with u : unit |- _ => destruct u end.
-
-(** equations between constructor forms, left behind by the case analyses *)
-Ltac tidy :=
-  repeat match goal with
-  | H : Ok _ = Ok _ |- _ => inversion H; clear H; try subst
-  | H : Err _ = Err _ |- _ => inversion H; clear H; try subst
-  | H : Some _ = Some _ |- _ => inversion H; clear H; try subst
-  | H : pair _ _ = pair _ _ |- _ => inversion H; clear H; try subst
-  | H : Ok _ = Err _ |- _ => discriminate H
-  | H : Err _ = Ok _ |- _ => discriminate H
-  | H : Some _ = None |- _ => discriminate H
-  | H : None = Some _ |- _ => discriminate H
-  end.
+(* the generic steps (zcong, break_match with scrutinee synchronisation, tidy, ...) are in Bridge/BridgeTac.v *)
 
 Ltac leaf_hyps :=
   try rewrite ?b_table_entry_size in *.
